@@ -178,7 +178,9 @@ def _argmin_batch_rule(
     axis_size = operand.shape[bdim]
     operand = batching.bdim_at_front(operand, bdim, axis_size)
 
-    shifted_axes = tuple(int(ax) + 1 for ax in axes)
+    # ``axes`` address the per-example operand; a negative axis counts from its end
+    rank = operand.ndim - 1
+    shifted_axes = tuple((int(ax) + rank if int(ax) < 0 else int(ax)) + 1 for ax in axes)
     out = JnpArgminPlugin._PRIM.bind(
         operand,
         axes=shifted_axes,
